@@ -30,7 +30,11 @@ func (w *World) fileInst(i int64) *FileInst {
 	}
 	cs := w.storageParams().ChunkSize
 	if f.tree == nil || f.chunk != cs {
-		root, exported, chunks, _, err := storageutils.BuildTree(bytes.NewReader(f.Data), cs)
+		eff := cs // a chunk size beyond the file gives one chunk: do not allocate absurd buffers client-side
+		if eff > int64(len(f.Data))+1 {
+			eff = int64(len(f.Data)) + 1
+		}
+		root, exported, chunks, _, err := storageutils.BuildTree(bytes.NewReader(f.Data), eff)
 		if err != nil {
 			return nil
 		}
